@@ -191,7 +191,15 @@ def parse_keywords(lines, multiline_values=True, key_hints=None):
                 rtn[line.strip()] = DEFAULT_VALUE
 
             elif multiline_values is False:
-                rtn[key] = value
+                # the pending key's value is complete; it may be one
+                # of several values of that key
+                if key in rtn:
+                    if isinstance(rtn[key], list):
+                        rtn[key].append(unquote(value))
+                    else:
+                        rtn[key] = [rtn[key], unquote(value)]
+                else:
+                    rtn[key] = unquote(value)
                 rtn[line.strip()] = DEFAULT_VALUE
                 key = None
                 value = ''
